@@ -768,7 +768,9 @@ fn run_once(bytes: &[u8], c: &RunCase, text: &Arc<Vec<String>>, evil: Option<&st
             let mut rng = Rng::new(seed);
             block_on_random(fut, &ctl, &mut rng)
         }
-        'T' => Ok(tokio_rt().block_on(fut)),
+        'T' => tokio_rt()
+            .block_on(async { tokio::time::timeout(std::time::Duration::from_secs(20), fut).await })
+            .map_err(|_| "no completion within 20 s (executor T)".to_string()),
         _ => block_on_simple(fut),
     };
     out.started = started.lock().unwrap().clone();
@@ -842,7 +844,9 @@ fn run_file_once(bytes: &[u8], c: &FileCase, sched_seed: u64, exec: char, seed: 
             let mut rng = Rng::new(seed);
             block_on_random(fut, &ctl, &mut rng)
         }
-        'T' => Ok(tokio_rt().block_on(fut)),
+        'T' => tokio_rt()
+            .block_on(async { tokio::time::timeout(std::time::Duration::from_secs(20), fut).await })
+            .map_err(|_| "no completion within 20 s (executor T)".to_string()),
         _ => block_on_simple(fut),
     };
     let done = done.lock().unwrap().clone();
@@ -1744,12 +1748,32 @@ impl Engine for Det {
         "kind run: a generated ARM64/Linux (dump, symbols) pair (minidump-synth: 2-8 modules incl. same-leaf paths in 1/3 of the pairs — half of them with different symbol outcomes —, 2-6 threads (31+ in 1/40) walking 2-6 frames through the shared modules by STACK CFI with aliased labels fp:/x29: in 3/4, a /proc/limits stream with 8-18 limits in 9/10, optional exception stream, three option sets) processed runs x schedules x executors times in-process (fresh Symbolizer and hash seeds each; executors B poll-to-completion, R randomised releases + spurious polls, T multi-thread tokio with suspensions in spawned tasks); the four report byte strings of every run are compared with the base run; the model request is built from the REAL iteration orders / completion order of the base run. kind cfi: walk_with_stack_cfi called directly on generated rule maps (0-12 labels incl. aliases fp/x29, lr/x30, unknown names, failing rules, shadowed delta rules) with a twin of CfiStackWalker on the real CONTEXT_ARM64. non-trivial = (run) >= 4 runs compared and some thread was unwound beyond its context frame, (cfi) >= 2 rules; distinct = distinct case line".into()
     }
 
+    fn exhaustive_part(&self) -> Option<String> {
+        Some("kind cfi: all 256 rule maps over the aliased labels {fp, x29, lr, x30} with outcome {absent, 5, 6, evaluation fails} each, x 3 initial caller states, each map called 8 times (fresh HashMap, 3 renderings) and compared with walkRest arm64".into())
+    }
+
     fn generate(&self, tier: Tier, rng: &mut Rng, emit: &mut dyn FnMut(String)) {
         let quick = tier == Tier::Quick;
         let n_run = if quick { 2400 } else { 40_000 };
         let n_cfi = if quick { 20_000 } else { 400_000 };
         for i in 0..n_run {
             emit(render_run(&gen_run(rng, i, tier)));
+        }
+        // exhaustive: every rule map over the aliased labels fp/x29/lr/x30 with outcomes
+        // {absent, 5, 6, fails} x three initial caller states
+        for code in 0..256u32 {
+            for init in [vec![], vec![(29u32, 7u64, true)], vec![(29, 7, false), (30, 9, true)]] {
+                let mut rules = vec![];
+                for (k, l) in ["fp", "x29", "lr", "x30"].iter().enumerate() {
+                    match (code >> (2 * k)) & 3 {
+                        0 => {}
+                        1 => rules.push((l.to_string(), Some(5))),
+                        2 => rules.push((l.to_string(), Some(6))),
+                        _ => rules.push((l.to_string(), None)),
+                    }
+                }
+                emit(render_cfi(&CfiCase { init, rules, sh: code as u64 }));
+            }
         }
         for _ in 0..n_cfi {
             emit(render_cfi(&gen_cfi(rng)));
